@@ -20,12 +20,17 @@ def render_file(rng, f, plain=False):
     nedges = sum(1 for ln in f['lines'] if ln['k'] == 'e')
     for ln in f['lines']:
         if ln['k'] == 'c':
-            out.append('c' if plain else rng.choice(['c a comment', '# another comment', 'c', '#', 'c p edge 9 9', 'c e 1 2 3']))
+            if not plain and rng.random() < 0.08:      # long comment lines, up to just below the reader's 1024-byte line buffer
+                out.append(rng.choice(['c ', '# ', 'c', 'c e 1 2 ']) + ''.join(rng.choice('xyz 0123456789 e a p') for _ in range(rng.choice([200, 700, 1000, 1012]))))
+            else:
+                out.append('c' if plain else rng.choice(['c a comment', '# another comment', 'c', '#', 'c p edge 9 9', 'c e 1 2 3']))
         elif ln['k'] == 'p':
             out.append('p %s %d %d' % ('edge' if plain else rng.choice(['edge', 'sp', 'col']), ln['n'], nedges))
         else:
             tag = 'e' if plain else rng.choice(['e', 'a'])
             sep = ' ' if plain else rng.choice([' ', '  ', '\t'])
+            if not plain and rng.random() < 0.05:      # very wide separators / long edge lines (still below the buffer size)
+                sep = rng.choice([' ', '\t']) * rng.choice([50, 200, 300])
             if ln['w'] == OMITTED:
                 out.append(sep.join([tag, str(ln['s']), str(ln['t'])]))
             else:
